@@ -1,4 +1,4 @@
-import ClaripyProofs.Lemmas.AST.RulesSound2
+import ClaripyProofs.Lemmas.AST.RulesSound3
 import ClaripyProofs.Lemmas.AST.FoldSound
 import ClaripyProofs.Lemmas.AST.ACNormSoundB
 import ClaripyProofs.Lemmas.AST.BitsSound
